@@ -332,6 +332,7 @@ func (pr *progRender) usesHolder() bool {
 
 // render produces the function source for the directive.
 func (pr *progRender) render() string {
+	pr.s.NextUnits = nil
 	s := pr.s
 	n := pr.n
 	var opts []func() string
@@ -545,6 +546,22 @@ func (pr *progRender) render() string {
 				}
 				pr.pre = append(pr.pre, fmt.Sprintf("uh_%d := &unitHolder{Env: env, Unit: %d}\n_ = uh_%d // also used outside the directive", pt.Unit, pt.Unit, pt.Unit))
 				return fmt.Sprintf("uh_%d.%s", pt.Unit, m)
+			}
+			if pt.Sp == "nextmethod" {
+				// the same TEXT for different tasks: a method value of whatever a
+				// factory returns next (the k-th evaluation binds the k-th listed task)
+				m := "PT"
+				if pt.Ctx {
+					m += "C"
+				}
+				if pt.Err {
+					m += "E"
+				}
+				if m == "PT" {
+					m = "PTV"
+				}
+				s.NextUnits = append(s.NextUnits, pt.Unit)
+				return "nextHolder(env)." + m
 			}
 			var body []string
 			if pt.Err {
@@ -1087,6 +1104,8 @@ func SupportSource() string {
 	x.f("// unitHolder binds one parallel task: several tasks of a directive are written as the")
 	x.f("// SAME method of DIFFERENT receivers (a.PTC, b.PTC).")
 	x.f("type unitHolder struct {\n\tEnv  *rt.Env\n\tUnit int\n}")
+	x.f("// nextHolder binds the task that is next in the order in which the directive lists them.")
+	x.f("func nextHolder(env *rt.Env) *unitHolder { return &unitHolder{Env: env, Unit: env.NextUnit()} }")
 	x.f("func (h *unitHolder) PTCE(ctx context.Context) error { return h.Env.PTask(h.Unit, ctx) }")
 	x.f("func (h *unitHolder) PTC(ctx context.Context)         { h.Env.PTask(h.Unit, ctx) }")
 	x.f("func (h *unitHolder) PTE() error                     { return h.Env.PTask(h.Unit, nil) }")
